@@ -1,396 +1,23 @@
-"""C09 -- minimize never makes things worse, terminates (structural clauses L1..L6 on the solver loop)."""
-import re
+"""C09 -- minimize never makes things worse, terminates and reports why (structural clauses).
 
+L.trace / L.strat (engine M, props/optm.py): minimize and the trust-region strategies are abstractly executed against scripted oracles and the
+trace is checked against the contract.  L7: finite-difference step floor of dr_numerical (executor in props/c08.py).  N5: colwise_norm (shared with C10)."""
 import astlib as A
 import fe
 from report import Finding
 
 
-def writes_to(node, name):
-    """AST nodes that assign / increment the variable `name` inside node"""
-    out = []
-    for x in A.walk(node):
-        k = x.get("kind")
-        if k in ("BinaryOperator", "CompoundAssignOperator", "CXXOperatorCallExpr"):
-            e = A.to_expr(x)
-            if e[0] == "op" and (e[1] == "=" or e[1].endswith("=") and e[1] not in ("==", "<=", ">=", "!=")) and e[2][0] == "ref" and e[2][1] == name:
-                out.append(x)
-        elif k == "UnaryOperator" and x.get("opcode") in ("++", "--"):
-            e = A.to_expr(x)
-            if e[2][0] == "ref" and e[2][1] == name:
-                out.append(x)
-    return out
-
-
-def is_cb_call(e):
-    return e[0] == "call" and str(e[1]).split("::")[-1] == "apply" and len(e[2]) == 2 and e[2][0][0] == "ref" and e[2][0][1] == "cb" \
-        and e[2][1][0] == "ref" and e[2][1][1] == "x"
-
-
-def is_cb_any(e):
-    return e[0] == "call" and str(e[1]).split("::")[-1] == "apply" and len(e[2]) == 2 and e[2][0][0] == "ref" and e[2][0][1] == "cb"
-
-
-def disjuncts(e):
-    if e[0] == "op" and e[1] == "||":
-        return disjuncts(e[2]) + disjuncts(e[3])
-    return [e]
-
-
-def decl_inits(body):
-    """name -> init expr for VarDecls and bindings of decomposition declarations"""
-    out = {}
-    for x in A.walk(body):
-        if x.get("kind") == "VarDecl" and A.kids(x):
-            out[x.get("name")] = A.to_expr(A.kids(x)[-1])
-        elif x.get("kind") == "DecompositionDecl":
-            init = [k for k in A.kids(x) if k.get("kind") != "BindingDecl"]
-            names = [k.get("name") for k in A.kids(x) if k.get("kind") == "BindingDecl"]
-            if init:
-                e = A.to_expr(init[0])
-                for i, n in enumerate(names):
-                    out[n] = ("binding", i, e)
-    return out
-
-
 def check(rep, tier, replay=None):
     rep.explanations.append(
-        "C09: rules on the single solver loop of minimize<D>(f, x, cb, opts): iteration bound, status discipline, callback "
-        "discipline, guarded step, gain-ratio data flow, and the sign rule of every TrustRegionStrategy::step_and_update override.")
-    rep.trusted.add("clang++-16 front end (JSON AST of the function template pattern)")
-    rep.assumptions.append("monotone cost additionally needs pred_red >= 0, i.e. the step solver property C10, which is not decided statically")
-    d = fe.ast_dumps(["minimize", "Strategy"])
-    rep.unit("umbrella TU filtered minimize / Strategy")
-    idx = A.index(d["minimize"])
-    cands = [x for x in idx if x.kind in A.FUNCS and x.pattern and x.qname.split("::")[-1] == "minimize" and x.file and x.file.startswith(fe.INCLUDE)
-             and A.body(x.node) is not None]
-    mains = [x for x in cands if any(s.get("kind") == "ForStmt" for s in A.kids(A.body(x.node)))]
-    if len(mains) != 1:
-        rep.broke("expected exactly one minimize overload containing the solver loop, found %d" % len(mains))
-        return
-    fn = mains[0]
-    qn = "minimize<D>(f, x, cb, opts)"
-    b = A.body(fn.node)
-    stmts = A.kids(b)
-    loops = [s for s in stmts if s.get("kind") == "ForStmt"]
-    all_loops = [x for x in A.walk(b) if x.get("kind") in ("ForStmt", "WhileStmt", "DoStmt", "CXXForRangeStmt")]
-    inits = decl_inits(b)
-    f0, l0 = fn.file, fn.line
-
-    # ---- L1 bound -----------------------------------------------------------------------
-    rep.rule("L1", "at most max_iter iterations; result.iter counts them")
-    loop = loops[0]
-    ks = A.kids(loop)
-    cond = A.to_expr(ks[2])
-    inc = A.to_expr(ks[3])
-    body = ks[4]
-    conj = []
-
-    def conjuncts(e):
-        if e[0] == "op" and e[1] == "&&":
-            return conjuncts(e[2]) + conjuncts(e[3])
-        return [e]
-    conj = conjuncts(cond)
-    bound_ok = any(c[0] == "op" and c[1] == "<" and c[2][0] == "ref" and c[2][1] == "iter" and A.show(c[3]) == "opts.max_iter" for c in conj)
-    init_ok = "iter" in inits and inits["iter"] == ("num", 0)
-    inc_ok = inc[0] == "un" and inc[1].startswith("++") and inc[2][0] == "ref" and inc[2][1] == "iter"
-    other_writes = [w for w in writes_to(body, "iter")] + [w for s in stmts if s is not loop for w in writes_to(s, "iter")]
-    single_loop = len(all_loops) == 1
-    ok = bound_ok and init_ok and inc_ok and not other_writes and single_loop
-    f, l = A.loc(loop)
-    rep.instance("L1", qn, "loop", ok=ok, sample={"file": fe.rel(f), "line": l, "condition": A.show(cond), "increment": A.show(inc)})
-    if not ok:
-        why = []
-        if not bound_ok:
-            why.append("loop condition `%s` lacks the conjunct iter < opts.max_iter" % A.show(cond))
-        if not init_ok:
-            why.append("iter does not start at 0")
-        if not inc_ok:
-            why.append("increment is `%s`, not ++iter" % A.show(inc))
-        if other_writes:
-            why.append("iter is written elsewhere (%s)" % A.text(other_writes[0])[:40])
-        if not single_loop:
-            why.append("%d loops in the solver (one confirmed)" % len(all_loops))
-        rep.violation(Finding("L1", qn, "loop", "iteration bound not enforced: " + "; ".join(why), f, l))
-
-    # ---- L2 status -----------------------------------------------------------------------
-    rep.rule("L2", "status assigned only inside the loop to Ftol/Ptol; MaxIters reported exactly via value_or")
-    sw = writes_to(b, "status")
-    in_loop = set(id(x) for x in A.walk(body))
-    vals = []
-    bad = []
-    for w in sw:
-        e = A.to_expr(w)
-        v = A.show(e[3]).split("::")[-1]
-        vals.append(v)
-        if id(w) not in in_loop or v not in ("Ftol", "Ptol"):
-            bad.append(w)
-    stop_ok = any(A.show(c) == "!(status.has_value())" for c in conj)
-    rets = [s for s in stmts if s.get("kind") == "ReturnStmt"]
-    ret_ok = False
-    if len(rets) == 1:
-        e = A.to_expr(A.kids(rets[0])[0])
-        if e[0] in ("init", "ctor"):
-            items = e[1] if e[0] == "init" else e[2]
-            if len(items) >= 2:
-                ret_ok = (re.sub(r"\s", "", A.show(items[0])) in ("status.value_or(MaxIters)", "status.value_or(SolveResult::Status::MaxIters)", "status.value_or(Status::MaxIters)")
-                          and items[1][0] == "ref" and items[1][1] == "iter")
-    init_ok2 = "status" in inits and A.show(inits["status"]) in ("{}", "std::optional<SolveResult::Status>()", "nullopt") or inits.get("status", ("x",))[0] in ("init", "ctor")
-    ok = not bad and stop_ok and ret_ok and len(sw) >= 2 and init_ok2
-    rep.instance("L2", qn, "status", ok=ok, sample={"assigned": vals, "return": A.show(A.to_expr(A.kids(rets[0])[0]))[:120] if rets else None})
-    if not ok:
-        why = []
-        if bad:
-            why.append("status assigned outside the loop or to something other than Ftol/Ptol: %s" % A.text(bad[0])[:60])
-        if not stop_ok:
-            why.append("loop does not stop when a status is set")
-        if not ret_ok:
-            why.append("result is not {status.value_or(MaxIters), iter, ...}")
-        if len(sw) < 2:
-            why.append("fewer than two convergence assignments")
-        f, l = A.loc(rets[0]) if rets else (f0, l0)
-        rep.violation(Finding("L2", qn, "status", "; ".join(why) or "status initialisation changed", f, l))
-
-    # ---- L3 callback discipline -----------------------------------------------------------
-    rep.rule("L3", "callback sees the initial point once, then exactly once after every accepted step")
-    pre = stmts[:stmts.index(loop)]
-    pre_calls = [s for s in pre if s.get("kind") == "CallExpr" and is_cb_call(A.to_expr(s))]
-    post_calls = [x for s in stmts[stmts.index(loop) + 1:] for x in A.walk(s) if x.get("kind") == "CallExpr" and is_cb_call(A.to_expr(x))]
-    nested_pre = [x for s in pre for x in A.walk(s) if x.get("kind") == "CallExpr" and is_cb_call(A.to_expr(x))]
-    ok_pre = len(pre_calls) == 1 and len(nested_pre) == 1 and not post_calls
-    # in-loop: within each compound statement, an assignment to x must be followed (same block, before another write to x) by the callback
-    problems = []
-    n_pairs = 0
-
-    def scan_block(block):
-        nonlocal n_pairs
-        items = A.kids(block)
-        pending = None
-        for s in items:
-            if s.get("kind") in ("BinaryOperator", "CXXOperatorCallExpr") and writes_to(s, "x") and s in writes_to(s, "x"):
-                if pending is not None:
-                    problems.append((pending, "x is overwritten before the callback saw the previous iterate"))
-                pending = s
-                continue
-            e = A.to_expr(s) if s.get("kind") == "CallExpr" else None
-            if e is not None and is_cb_call(e):
-                if pending is None:
-                    problems.append((s, "callback invoked without a preceding accepted step in the same block"))
-                else:
-                    n_pairs += 1
-                pending = None
-                continue
-            # nested statements
-            nested_w = writes_to(s, "x")
-            nested_c = [x for x in A.walk(s) if x.get("kind") == "CallExpr" and is_cb_call(A.to_expr(x))]
-            if s.get("kind") in ("IfStmt", "CompoundStmt", "ForStmt", "WhileStmt"):
-                for c in A.kids(s):
-                    if c.get("kind") == "CompoundStmt":
-                        scan_block(c)
-                    elif c.get("kind") == "IfStmt":
-                        scan_block({"kind": "CompoundStmt", "inner": [c]})
-            elif nested_w or nested_c:
-                problems.append((s, "x written / callback invoked inside an expression the rule does not recognise"))
-        if pending is not None:
-            problems.append((pending, "accepted step is not followed by the callback before the end of the block"))
-    scan_block(body)
-    for x in A.walk(b):
-        if x.get("kind") == "CallExpr":
-            e = A.to_expr(x)
-            if is_cb_any(e) and not is_cb_call(e):
-                problems.append((x, "callback is invoked on `%s`, not on the iterate x the arguments hold" % A.show(e[2][1])))
-    ok = ok_pre and not problems and n_pairs >= 1
-    rep.instance("L3", qn, "callback", ok=ok, sample={"initial_calls": len(pre_calls), "step_callback_pairs": n_pairs})
-    if not ok_pre:
-        rep.violation(Finding("L3", qn, "initial", "callback must be applied exactly once to the initial point before the loop and never after it "
-                              "(before: %d, after: %d)" % (len(nested_pre), len(post_calls)), f0, l0))
-    for node, msg in problems:
-        f, l = A.loc(node)
-        rep.violation(Finding("L3", qn, "step", msg + ": " + A.text(node)[:60], f, l))
-    if n_pairs < 1 and not problems:
-        rep.violation(Finding("L3", qn, "step", "no accepted-step/callback pair found in the loop", f0, l0))
-
-    # ---- helpers: inline local definitions -----------------------------------------------------
-    def inline(e, depth=0):
-        if depth > 25 or not isinstance(e, tuple):
-            return e
-        if e[0] == "ref" and e[1] in inits and inits[e[1]][0] != "binding":
-            return inline(inits[e[1]], depth + 1)
-        if e[0] == "lambda":
-            return e
-        return tuple(inline(x, depth) if isinstance(x, tuple) else ([inline(y, depth) for y in x] if isinstance(x, list) else x) for x in e)
-
-    def strip_ids(e):
-        if isinstance(e, tuple):
-            if e and e[0] == "ref":
-                return ("ref", e[1])
-            return tuple(strip_ids(x) for x in e)
-        if isinstance(e, list):
-            return [strip_ids(x) for x in e]
-        return e
-
-    def is_norm_of(e):
-        """X if e == X.stableNorm() / X.norm()"""
-        if e[0] == "mcall" and e[2] in ("stableNorm", "norm") and not e[4]:
-            return e[1]
-        return None
-
-    def one_minus_sq_ratio(e):
-        """(numerator expr, denominator expr) if e == 1 - fpow<2>(num/den), else None"""
-        if e[0] == "op" and e[1] == "-" and e[2] == ("num", 1) and e[3][0] == "call" and str(e[3][1]).split("::")[-1].startswith("fpow") and len(e[3][2]) == 1:
-            q = e[3][2][0]
-            if q[0] == "op" and q[1] == "/":
-                return q[2], q[3]
-        return None
-
-    binding_src = {n: v for n, v in inits.items() if v[0] == "binding"}
-    rname = next((n for n, v in binding_src.items() if v[1] == 0 and re.sub(r"\s", "", A.show(v[2])).endswith("dr(f,x)")), None)
-    jname = next((n for n, v in binding_src.items() if v[1] == 1 and re.sub(r"\s", "", A.show(v[2])).endswith("dr(f,x)")), None)
-    dxname = next((n for n, v in binding_src.items() if v[1] == 0 and "solve_trust_region" in A.show(v[2])), None)
-    if not (rname and jname and dxname):
-        rep.broke("minimize: residual/Jacobian (diff::dr<1,D>(f, x)) or step (solve_trust_region) bindings not found")
-        return
-    fp = [x for x in A.walk(b) if x.get("kind") == "CallExpr" and "fpow" in (A.callee_name(A.kids(x)[0]) or "")]
-    fp_sq = all(A.ntext(A.kids(x)[0]).endswith("fpow<2>") for x in fp)
-
-    # the gain ratio handed to the strategy
-    verdict_calls = [x for x in A.walk(b) if x.get("kind") in ("CallExpr", "CXXMemberCallExpr") and A.to_expr(x)[0] == "mcall" and A.to_expr(x)[2] == "step_and_update"]
-    if len(verdict_calls) != 1:
-        rep.broke("minimize: expected exactly one call of strat->step_and_update, found %d" % len(verdict_calls))
-        return
-    vcall = strip_ids(inline(A.to_expr(verdict_calls[0])))
-    rho_inl = strip_ids(inline(A.to_expr(verdict_calls[0])[4][0]))
-
-    # ---- L6 gain ratio data flow -----------------------------------------------------------------
-    rep.rule("L6", "rho = actual/predicted reduction, actual cost evaluated at the candidate x(+)dx, both normalised by |r(x)|")
-    shape = None
-    if rho_inl[0] == "op" and rho_inl[1] == "/":
-        a, pr = one_minus_sq_ratio(rho_inl[2]), one_minus_sq_ratio(rho_inl[3])
-        if a and pr:
-            shape = (a, pr)
-    if shape is None or not fp_sq:
-        rep.broke("L6: gain ratio `%s` is no longer of the form (1 - (|.|/|.|)^2) / (1 - (|.|/|.|)^2); re-derive the rule" % A.show(rho_inl)[:120])
-    else:
-        (an, ad), (pn, pd) = shape
-        errs = []
-        r_ref = ("ref", rname)
-        want_den = None
-        if is_norm_of(ad) != r_ref:
-            errs.append("actual reduction is normalised by `%s`, not by the norm of the current residual %s" % (A.show(ad), rname))
-        if is_norm_of(pd) != r_ref:
-            errs.append("predicted reduction is normalised by `%s`, not by the norm of the current residual %s" % (A.show(pd), rname))
-        cand = is_norm_of(an)
-        okc = (cand is not None and cand[0] == "call" and str(cand[1]).split("::")[-1] == "apply" and len(cand[2]) == 2 and cand[2][0] == ("ref", "f")
-               and cand[2][1][0] == "call" and str(cand[2][1][1]).split("::")[-1] == "wrt_rplus" and cand[2][1][2] == [("ref", "x"), ("ref", dxname)])
-        if not okc:
-            errs.append("actual cost is `%s`; it must be |f(x (+) dx)| at the candidate point" % A.show(an)[:80])
-        lin = is_norm_of(pn)
-        okl = False
-        if lin is not None and lin[0] == "op" and lin[1] == "+":
-            terms = [lin[2], lin[3]]
-            jd = ("op", "*", ("ref", jname), ("ref", dxname))
-            okl = r_ref in terms and jd in terms
-        if not okl:
-            errs.append("predicted cost is `%s`; it must be |r + J*dx| of the linearised model" % A.show(pn)[:80])
-        rep.instance("L6", qn, "gain-ratio", ok=not errs, sample={"rho": A.show(rho_inl)[:200]})
-        fv, lv = A.loc(verdict_calls[0])
-        for msg in errs:
-            rep.violation(Finding("L6", qn, "gain-ratio", msg, fv, lv))
-
-    # ---- L4 guarded step ----------------------------------------------------------------------
-    rep.rule("L4", "x changes only under (degenerate guards || strategy verdict), and only to wrt_rplus(x, dx)")
-    xw = writes_to(b, "x")
-    parents = {}
-    for p in A.walk(b):
-        for c in A.kids(p):
-            parents[id(c)] = p
-    n4 = 0
-    for w in xw:
-        f, l = A.loc(w)
-        e = A.to_expr(w)
-        rhs = strip_ids(inline(e[3]))
-        src_ok = rhs[0] == "call" and str(rhs[1]).split("::")[-1] == "wrt_rplus" and rhs[2] == [("ref", "x"), ("ref", dxname)]
-        cur = w
-        guard = None
-        while id(cur) in parents:
-            p = parents[id(cur)]
-            if p.get("kind") == "IfStmt":
-                pk = A.kids(p)
-                if pk[1] is cur:
-                    guard = A.to_expr(pk[0])
-                elif cur is not pk[0]:
-                    guard = ("else",)
-                break
-            if p.get("kind") in ("ForStmt", "WhileStmt"):
-                break
-            cur = p
-        ok_g = False
-        if guard and guard[0] != "else":
-            dj = [strip_ids(inline(c)) for c in disjuncts(guard)]
-            has_verdict = False
-            allowed = 0
-            for c in dj:
-                if c == vcall:
-                    has_verdict = True
-                    allowed += 1
-                elif c[0] == "op" and c[1] == "==" and c[3] == ("num", 0) and is_norm_of(c[2]) == ("ref", rname):
-                    allowed += 1      # zero residual: nothing to lose
-                elif c[0] == "op" and c[1] in ("<=", "<") and c[3] == ("num", 0) and rho_inl[0] == "op" and c[2] == rho_inl[3]:
-                    allowed += 1      # non-positive predicted reduction
-            ok_g = has_verdict and allowed == len(dj)
-        n4 += 1
-        rep.instance("L4", qn, "x=%s" % A.show(e[3]), ok=src_ok and ok_g, sample={"file": fe.rel(f), "line": l, "guard": A.show(guard) if guard else None})
-        if not src_ok:
-            rep.violation(Finding("L4", qn, "source", "x is assigned `%s`; the only sanctioned update is wrt_rplus(x, dx) with the trust-region step dx" % A.show(rhs)[:80], f, l))
-        if not ok_g:
-            rep.violation(Finding("L4", qn, "guard", "the step is taken under `%s`; it must be guarded by the strategy verdict "
-                                  "(opts.strat->step_and_update(rho)) possibly or-ed with the degenerate guards |r| == 0 / predicted reduction <= 0 only"
-                                  % (A.show(guard) if guard else "no condition"), f, l))
-    if n4 == 0:
-        rep.broke("L4: no assignment to x found in minimize")
-
-    # ---- L5 strategies -------------------------------------------------------------------------------
-    rep.rule("L5", "every step_and_update override accepts only for rho > c with constant c >= 0", minimum=2)
-    sidx = A.index(d["Strategy"])
-    over = [x for x in sidx if x.kind in A.FUNCS and x.pattern and x.qname.endswith("::step_and_update") and A.body(x.node) is not None
-            and x.file and x.file.startswith(fe.INCLUDE)]
-    for s in over:
-        sb = A.body(s.node)
-        par = {}
-        for p in A.walk(sb):
-            for c in A.kids(p):
-                par[id(c)] = p
-        pname = (A.params(s.node) or [{}])[0].get("name", "rho")
-        for x in A.walk(sb):
-            if x.get("kind") == "ReturnStmt":
-                e = A.to_expr(A.kids(x)[0])
-                f, l = A.loc(x)
-                if e == ("bool", False):
-                    continue
-                ok = False
-                guard_txt = None
-                if e == ("bool", True):
-                    cur = x
-                    while id(cur) in par:
-                        p = par[id(cur)]
-                        if p.get("kind") == "IfStmt":
-                            pk = A.kids(p)
-                            g = A.to_expr(pk[0])
-                            in_then = pk[1] is cur
-                            guard_txt = A.show(g) + ("" if in_then else " [else branch]")
-                            if in_then and g[0] == "op" and g[1] in (">", ">=") and g[2][0] == "ref" and g[2][1] == pname and g[3][0] == "num" and g[3][1] >= 0:
-                                ok = True
-                            elif in_then and g[0] == "op" and g[1] in ("<", "<=") and g[3][0] == "ref" and g[3][1] == pname and g[2][0] == "num" and g[2][1] >= 0:
-                                ok = True
-                            break
-                        cur = p
-                rep.instance("L5", s.qname, "return %s" % A.show(e), ok=ok, sample={"file": fe.rel(f), "line": l, "guard": guard_txt})
-                if not ok:
-                    rep.violation(Finding("L5", s.qname, "accept",
-                                          "step accepted (`return %s`) under `%s`; acceptance must be dominated by %s > c with a constant c >= 0 "
-                                          "(a NaN or negative gain ratio must reject)" % (A.show(e), guard_txt, pname), f, l))
-
-    # minimize scales the trust region with colwise_norm(J) (dense and sparse Jacobians): shared rule N5 of C10
+        "C09: minimize<D>(f, x, cb, opts) is abstractly executed (engine M) against scripted oracles -- opaque residuals / Jacobians / steps whose norms a script "
+        "fixes per iteration -- together with the real CeresStrategy / DisneyStrategy code; every script of length <= max_iter over a small alphabet (good step, "
+        "cost increase, 0/0 reductions, negative predicted reduction, Ftol-sized and Ptol-sized steps, zero residual) is explored and the trace is compared with the "
+        "contract: callback sequence, argument updates, monotone cost of accepted points, gain ratio, iteration bound and status, final arguments.")
+    rep.trusted.update(["clang++-16 front end", "lib/mach.py (abstract machine) with IEEE semantics for division by zero and NaN comparisons"])
+    rep.assumptions.append("monotone cost additionally needs pred_red >= 0 for the true step, i.e. the step solver property C10; closeness to the minimiser is numerical and not decided")
+    rep.unit("umbrella TU filtered minimize / Strategy / MinimizeOptions")
+    import optm
+    optm.check(rep, tier)
     import c10
     rep.rule("N5", "colwise_norm: sparse branch visits every outer vector, indexes by the iterator's column, squares, takes the root; dense branch is colwise().norm()", minimum=3)
     c10.check_n5(rep, fe.ast_dumps(["colwise_norm"]))
